@@ -99,7 +99,7 @@ pub fn clean_seq(r: &mut Rng) -> String {
 
 /// SGR colour or hyperlink (for C13).
 pub fn sgr_or_link(r: &mut Rng) -> String {
-    match if r.chance(1, 150) { 100 } else { r.below(12) } {
+    match if r.chance(1, 800) { 100 } else { r.below(12) } {
         100 => format!("\u{1b}]8;;https://my-site.example/a-b{}", if r.coin() { "\u{7}" } else { "\u{1b}\\" }),
         0 => "\u{1b}[0m".to_string(),
         1 => "\u{1b}[31m".to_string(),
